@@ -101,7 +101,7 @@ TDCancel == Is("DCancel") /\ Ev.tid = loopTid /\ Skip
 (* loop-internal events: only the thread discipline is a property *)
 TLoopOnly == /\ (Is("RunOne") \/ Is("PollBegin") \/ Is("PollEnd"))
              /\ Ev.tid = loopTid /\ Skip
-TInfo == (Is("Fd") \/ Is("CancelIo") \/ Is("CancelIoSkip") \/ Is("LoopExit")) /\ Skip
+TInfo == (Is("Fd") \/ Is("Burst") \/ Is("CancelIo") \/ Is("CancelIoSkip") \/ Is("LoopExit")) /\ Skip
 TStop == Is("Stop") /\ stopped' = TRUE /\ UNCHANGED <<hs, timers, loopTid, cancelCode, pidOf, lastFire>>
 
 TRestart == Is("Restart") /\ stopped /\ stopped' = FALSE /\ UNCHANGED <<hs, timers, loopTid, cancelCode, pidOf, lastFire>>
